@@ -111,6 +111,10 @@ structure SkipNI (ρ : Type) where
 def dirtyBytes (n : Int) : GM Bytes :=
   if n < 0 then .panic "makeslice" else .ok (List.replicate n.toNat 0)
 
+/-- `make([]byte, n)`: n zero bytes; a negative length panics -/
+def makeBytes (n : Int) : GM Bytes :=
+  if n < 0 then .panic "makeslice" else .ok (List.replicate n.toNat 0)
+
 /-! ## slices (cap = len) -/
 
 def len (b : Bytes) : Int := (b.length : Int)
